@@ -60,6 +60,7 @@ structure Item (T : Type) where
   rule : Option Nat
   dot : Nat
   la : La T
+  deriving DecidableEq
 
 def Grammar.rhsOf (g : Grammar T N) : Option Nat → Option (List (Sym T N))
   | none => some [.n g.start]
@@ -114,6 +115,15 @@ def step (g : Grammar T N) (A : Auto T N) (c : Cfg T P) : StepRes T P :=
       | [] => .panic
       | t :: _ => .ok t
     | .err => .err
+
+/-- the `loop { … }` of the emitted `parse`: iterate `step` until it does not continue; returns the
+final step result together with the configuration it was taken in.  `none` = out of fuel. -/
+def runCfg (g : Grammar T N) (A : Auto T N) : Nat → Cfg T P → Option (StepRes T P × Cfg T P)
+  | 0, _ => none
+  | fuel + 1, c =>
+    match step g A c with
+    | .cont c' => runCfg g A fuel c'
+    | r => some (r, c)
 
 inductive Steps (g : Grammar T N) (A : Auto T N) : Cfg T P → Cfg T P → Prop
   | refl (c) : Steps g A c c
